@@ -520,6 +520,79 @@ func runC07(w *vx.W) {
 		d := fitmodel.Def{Local: 1, Global: 20, Fields: []fitmodel.FieldDef{{Num: 3, Size: 1, Base: fitmodel.Uint8}}, DevFlag: true, Dev: []fitmodel.DevDef{{Num: 0, Size: 2, Idx: 0}}}
 		feed("developer-fields", fitmodel.File(fitmodel.DefaultHeader, append(fitmodel.FileIdRecords(0, 4), d.Bytes(), fitmodel.Data(1, []byte{70, 1, 2}))...), "")
 	}
+	// (7) mix-family words (both byte orders, zero-field and developer-field definitions, unknown items, local times,
+	// unhosted messages, redefinitions) and files in which every member holds fully populated messages
+	{
+		alphaM := mixAlphabet()
+		ml := 2
+		if !w.Quick() {
+			ml = 3
+		}
+		seqWords(len(alphaM), ml, func(int64) bool { return true }, func(word []int) bool {
+			var ops []mixOp
+			for _, a := range word {
+				ops = append(ops, alphaM[a])
+			}
+			if st, full, ok := mixStream(ops, true); ok {
+				feed("mix:"+mixWordString(full), st, "")
+			}
+			return true
+		})
+		for _, t := range fileTypes {
+			for seed := 1; seed <= 2; seed++ {
+				st, _ := richStream(byte(t.Type), seed*17, seed)
+				feed(fmt.Sprintf("rich:%s/%d", t.Name, seed), st, "")
+			}
+			// sparse after rich: the same slice holds messages with many fields and messages with one
+			for _, sl := range hosts()[byte(t.Type)] {
+				if !sl.IsSlice {
+					continue
+				}
+				r1, _ := richRecord(sl.Mesg, 1, 5, false, byte(t.Type))
+				var sparse []byte
+				for _, e := range p.byMesg[sl.Mesg] {
+					if e.Kind == kindNative && !e.Array && e.Base != fitmodel.String && fitmodel.BaseSize(e.Base) <= 4 {
+						d := fitmodel.Def{Local: 2, Big: true, Global: sl.Mesg, Fields: []fitmodel.FieldDef{{Num: e.Num, Size: byte(fitmodel.BaseSize(e.Base)), Base: e.Base}}}
+						sparse = fitmodel.Concat(d.Bytes(), fitmodel.Data(2, fitmodel.PutUint(d.Order(), fitmodel.BaseSize(e.Base), 9)))
+						break
+					}
+				}
+				if sparse == nil {
+					continue
+				}
+				r3, _ := richRecord(sl.Mesg, 3, 8, true, byte(t.Type))
+				feed(fmt.Sprintf("rich-sparse-rich:%s/%s", t.Name, sl.Name), fitmodel.File(fitmodel.DefaultHeader, append(fitmodel.FileIdRecords(0, byte(t.Type)), r1, sparse, r3, sparse)...), "")
+			}
+		}
+	}
+	// (8) string sequences: records of one message whose string field holds a longer, then a shorter value (multi-byte
+	// runes whose lead byte falls where the shorter string ends), all ordered pairs and a triple
+	{
+		strs := []string{"Zürich", "A", "", "日本語", "Zü", "plain ascii text"}
+		for _, e := range p.all {
+			m := uint16(e.Mesg)
+			if e.Kind != kindNative || e.Base != fitmodel.String || e.Array || int(e.Length) < 8 {
+				continue
+			}
+			ft, ok := hostType(m)
+			if !ok || !slotIsSlice(ft, m) {
+				continue
+			}
+			size := 20
+			field := func(v string) []byte {
+				b := make([]byte, size)
+				copy(b, v)
+				return b
+			}
+			d := fitmodel.Def{Local: 1, Global: m, Fields: []fitmodel.FieldDef{{Num: e.Num, Size: byte(size), Base: fitmodel.String}}}
+			for i, a := range strs {
+				for j, b := range strs {
+					parts := append(fitmodel.FileIdRecords(0, ft), d.Bytes(), fitmodel.Data(1, field(a)), fitmodel.Data(1, field(b)), fitmodel.Data(1, field(strs[(i+j+1)%len(strs)])))
+					feed(fmt.Sprintf("string-sequence:%v.%d %q %q", e.Mesg, e.Num, a, b), fitmodel.File(fitmodel.DefaultHeader, parts...), "")
+				}
+			}
+		}
+	}
 	// (6) corpus
 	for i, b := range crasherInputs() {
 		feed(fmt.Sprintf("crasher:%d", i), b, "")
